@@ -18,6 +18,8 @@ def confirm(C, model, other_variant=False):
     returns (ok, description, replay payload)"""
     schema, query, payloads, possible = synth.abstract_texts(model)
     attrs = 'fragments_other_variant = true, ' if other_variant else ''
+    if model.get('normalization') == 'Rust':
+        attrs += 'normalization = "rust", '
     err = C.build(schema, query, 'Q', 'q', attrs=attrs)
     rp = dict(schema=schema, query=query, model=model)
     if err:
